@@ -123,7 +123,7 @@ func TestBoundedC19(t *testing.T) {
 			fmt.Printf("BOUNDED-FAIL: "+format+"\n", a...)
 		}
 	}
-	knownEmpty := 0
+	knownEmpty, knownFF := 0, 0
 	for _, be := range backends {
 		if !be.emptyKey && !strings.Contains(known, "empty-key") {
 			be.emptyKey = true // not listed: the difference is reported like any other
@@ -212,6 +212,45 @@ func TestBoundedC19(t *testing.T) {
 				}
 			}()
 		}
+	}
+	// prefixed views and IteratePrefix next to neighbouring keys of the underlying store (prefixes ending in 0xFF)
+	for _, prefix := range [][]byte{{1}, {1, 0xff}, {0xff}, {0xff, 0xff}} {
+		under := NewMemDB()
+		all := [][]byte{{0}, {1}, {1, 0}, {1, 0xfe}, {1, 0xff}, {1, 0xff, 0}, {1, 0xff, 0xff}, {2}, {2, 0}, {0xff}, {0xff, 0xff}, {0xff, 0xff, 1}}
+		model := map[string][]byte{}
+		for i, k := range all {
+			under.Set(k, []byte{byte(i + 1)})
+			if bytes.HasPrefix(k, prefix) {
+				model[string(k[len(prefix):])] = []byte{byte(i + 1)}
+			}
+		}
+		cases++
+		// IteratePrefix yields exactly the keys with the prefix
+		var wantFull []bkv
+		for _, e := range bModelIter(model, nil, nil, false) {
+			wantFull = append(wantFull, bkv{append(append([]byte(nil), prefix...), e.k...), e.v})
+		}
+		if got := bDrain(IteratePrefix(under, prefix)); !bSame(got, wantFull) {
+			if strings.Contains(known, "prefix-ff-neighbour") && len(prefix) > 0 && prefix[len(prefix)-1] == 0xff {
+				knownFF++
+			} else {
+				fail("IteratePrefix(%x): got %s want %s", prefix, bFmt(got), bFmt(wantFull))
+			}
+		}
+		view := NewPrefixDB(under, prefix)
+		if got, want := bDrain(view.Iterator(nil, nil)), bModelIter(model, nil, nil, false); !bSame(got, want) {
+			fail("prefix(%x).Iterator(nil,nil): got %s want %s", prefix, bFmt(got), bFmt(want))
+		}
+		if got, want := bDrain(view.ReverseIterator(nil, nil)), bModelIter(model, nil, nil, true); !bSame(got, want) {
+			if strings.Contains(known, "prefix-ff-neighbour") && len(prefix) > 0 && prefix[len(prefix)-1] == 0xff {
+				knownFF++
+			} else {
+				fail("prefix(%x).ReverseIterator(nil,nil): got %s want %s", prefix, bFmt(got), bFmt(want))
+			}
+		}
+	}
+	if knownFF > 0 {
+		fmt.Printf("KNOWN-FINDING: property=C19 for a prefix ending in 0xFF, cpIncr(prefix) keeps the length, so a neighbouring key equal to the truncated increment falls inside [prefix, cpIncr(prefix)) (%d cases in this run)\n", knownFF)
 	}
 	if knownEmpty > 0 {
 		fmt.Printf("KNOWN-FINDING: property=C19 the Bolt wrapper loses writes of the empty key: the bounded stand-in leaves the empty key out for it (%d draws)\n", knownEmpty)
